@@ -26,7 +26,15 @@ pub fn gen_v4(t: &mut Tape) -> [u8; 4] {
 
 pub fn gen_v6(t: &mut Tape) -> [u16; 8] {
     let mut g = [0u16; 8];
-    match t.weighted(&[1, 2, 2, 5, 4]) {
+    match t.weighted(&[1, 2, 2, 5, 4, 2]) {
+        5 => {
+            // a well-known prefix (NAT64 and its local-use /48, 6to4, Teredo, documentation, link-local, multicast,
+            // discard-only, IPv4-mapped) followed by random groups, some of them zero
+            let prefix: &[u16] = *t.pick(&[&[0x64, 0xff9b][..], &[0x64, 0xff9b, 1], &[0x2002], &[0x2001, 0], &[0x2001, 0xdb8], &[0xfe80], &[0xff02], &[0x100], &[0, 0, 0, 0, 0, 0xffff], &[0x64, 0xff9b, 0, 0, 0, 0]]);
+            for i in 0..8 {
+                g[i] = if i < prefix.len() { prefix[i] } else if t.chance(1, 3) { 0 } else { t.u16() };
+            }
+        }
         0 => {
             g[7] = 1;
         }
@@ -871,6 +879,15 @@ pub struct V2Gen {
 }
 
 pub fn gen_addr_block(t: &mut Tape, fam: u8) -> Vec<u8> {
+    // one block in twelve is all zero bytes (wildcard endpoints, port 0), one in twenty-four all 0xFF
+    if fam != 0 {
+        let size = NEED[fam as usize];
+        match t.below(24) {
+            0 | 1 => return vec![0u8; size],
+            2 => return vec![0xffu8; size],
+            _ => {}
+        }
+    }
     match fam {
         0 => vec![],
         1 => {
